@@ -6,8 +6,19 @@ MAX_VIOLATIONS_KEPT = 40       # per unit / per merged run (counts are kept for 
 MAX_OUTCOMES = 100000
 
 
+def json_safe(x):
+    """Plain JSON data with string keys only (a violating observation may carry None / int / tuple keys)."""
+    if isinstance(x, dict):
+        return dict((k if isinstance(k, str) else "<%s>" % (repr(k),), json_safe(v)) for k, v in x.items())
+    if isinstance(x, (list, tuple, set, frozenset)):
+        return [json_safe(v) for v in (sorted(x, key=repr) if isinstance(x, (set, frozenset)) else x)]
+    if x is None or isinstance(x, (str, int, float, bool)):
+        return x
+    return repr(x)
+
+
 def canon_json(x):
-    return json.dumps(x, sort_keys=True, default=repr, ensure_ascii=True)
+    return json.dumps(json_safe(x), sort_keys=True, default=repr, ensure_ascii=True)
 
 
 class Result(object):
@@ -62,6 +73,8 @@ class Result(object):
                             "observed": observed, "features": features or {}})
 
     def add_violation(self, v):
+        v = {"clause": v["clause"], "case": json_safe(v.get("case")), "expected": json_safe(v.get("expected")),
+             "observed": json_safe(v.get("observed")), "features": json_safe(v.get("features") or {})}
         self.violation_total += 1
         self.violation_counts[v["clause"]] = self.violation_counts.get(v["clause"], 0) + 1
         self._keep(v)
